@@ -12,9 +12,14 @@ What is a parameter (library code, not maddy's):
   arrives as `Txt` (junk / DMARC record with its parse result);
 * the resolver: `Str → Lookup` (answer classes: TXT list, not found, temporary DNS error, any other error);
 * `math/rand.Int31n(100)`: the oracle argument `rnd`.
-Not modelled: the trace field `EvalResult.DKIMResult`/`SPFResult` (only used for logging), the
-hand-off through `fetchCh` (a function composition here), a panicking resolver, resolvers that
-return both TXT strings and an error.
+Not modelled: the trace field `EvalResult.DKIMResult`/`SPFResult` (only used for logging), a
+panicking resolver, resolvers that return both TXT strings and an error.
+The asynchronous hand-off (`Verifier.FetchRecord` starts the lookup in a goroutine under the context
+it is given, `Apply` waits on `fetchCh`) is the last section: `timedLookup`, `fetchRecordTimed`,
+`verifierFetchTimed`, `pipelineBody` — the pipeline's stages, the stage at which each DNS answer
+arrives, and the stage after which the lookup's context is cancelled (`bodyCancelAfter`: in
+`msgpipelineDelivery.Body` / `checkBody` the context is the one of `Body`; the only cancellation is
+`Verifier.Close` in `checkRunner.close`, after `applyResults`).
 Strings are lists of code points.  Core Lean only.
 -/
 namespace MaddyVerif.Dmarc
@@ -262,5 +267,67 @@ def applyResults (priorQ : Bool) (res : Eval × Policy) : Reply :=
     if res.1.val = .temperror then .refuse 450 4 7 1 else .refuse 550 5 7 1
   | .quarantine => .accept true
   | .none => .accept priorQ
+
+/-! ### The asynchronous hand-off: `checkBody` → `Verifier.FetchRecord` (goroutine) → `fetchCh` → `Apply`
+
+Stages of `msgpipelineDelivery.Body`: `0` = `Verifier.FetchRecord` is called (at the start of the
+first `checkBody`), `k ≥ 1` = the body checks of the `k`-th check block are running, any stage
+after the last block = `applyResults` is waiting in `Apply` (`<-v.fetchCh` blocks until the lookup
+goroutine has sent its result, however late).  The resolver honours its context the way
+`net.Resolver` does: a lookup whose context is cancelled before the answer has arrived ends with a
+`*net.DNSError` "operation was canceled", which is neither `IsNotFound` nor `Temporary()`. -/
+
+/-- Is a context that is cancelled after stage `c` (`none`: not cancelled while the message is
+being decided) cancelled at stage `t`? -/
+def aborted (cancelAfter : Option Nat) (t : Nat) : Bool :=
+  match cancelAfter with
+  | some c => decide (c < t)
+  | none => false
+
+/-- `Resolver.LookupTXT(ctx, name)` asked at stage `start`, the answer for `name` arriving at stage
+`arrive name` (at once when that stage has passed already). -/
+def timedLookup (dns : Str → Lookup) (arrive : Str → Nat) (cancelAfter : Option Nat) (start : Nat)
+    (name : Str) : Lookup :=
+  if aborted cancelAfter (max start (arrive name)) then .other else dns name
+
+/-- `FetchRecord` run in the goroutine: the query for the organizational domain is made when the
+answer for the author domain has arrived. -/
+def fetchRecordTimed (P : Prims) (dns : Str → Lookup) (arrive : Str → Nat) (cancelAfter : Option Nat)
+    (fromD : Str) : Except FetchErr (Option (Str × Record)) :=
+  match lookupTxts (timedLookup dns arrive cancelAfter 0 fromD) with
+  | .error e => .error e
+  | .ok txts =>
+    let recs := dmarcRecords txts
+    if recs.isEmpty then fetchAtOrg P (timedLookup dns arrive cancelAfter (arrive fromD)) fromD
+    else pickRecord fromD recs
+
+/-- What arrives through `fetchCh`. -/
+def verifierFetchTimed (P : Prims) (dns : Str → Lookup) (arrive : Str → Nat) (cancelAfter : Option Nat)
+    (hdr : List FieldParse) : VerifyData :=
+  match extractFromDomain hdr with
+  | .error e => .extractErr e
+  | .ok fromD =>
+    match fetchRecordTimed P dns arrive cancelAfter fromD with
+    | .error e => .fetchErr fromD e
+    | .ok none => .noRecord fromD
+    | .ok (some (pd, r)) => .record fromD pd r
+
+/-- The context `checkBody` hands to `Verifier.FetchRecord` is the context of `Body` itself; the
+derived `fetchCancel` is called by `Verifier.Close` (`checkRunner.close`), after `applyResults`. -/
+def bodyCancelAfter : Option Nat := none
+
+/-- The checks-and-DMARC part of `msgpipelineDelivery.Body` (and of `BodyNonAtomic`, which runs the
+same `checkBody`… `applyResults` sequence): the authentication results of the
+check blocks are merged in block order (`blocks`: what the checks of each block report),
+`applyResults` hands them to `Apply`, which takes the lookup's result from `fetchCh`.
+`cancelAfter` is a parameter only to make the dependence visible; the code is
+`pipelineBody … bodyCancelAfter`. -/
+def pipelineBodyWith (cancelAfter : Option Nat) (P : Prims) (dns : Str → Lookup) (arrive : Str → Nat)
+    (hdr : List FieldParse) (blocks : List (List AuthRes)) (rnd : Nat) (priorQ : Bool) : Reply :=
+  applyResults priorQ (apply P (verifierFetchTimed P dns arrive cancelAfter hdr) blocks.flatten rnd)
+
+def pipelineBody (P : Prims) (dns : Str → Lookup) (arrive : Str → Nat)
+    (hdr : List FieldParse) (blocks : List (List AuthRes)) (rnd : Nat) (priorQ : Bool) : Reply :=
+  pipelineBodyWith bodyCancelAfter P dns arrive hdr blocks rnd priorQ
 
 end MaddyVerif.Dmarc
